@@ -30,6 +30,7 @@ REWRITES = {
     "R11": "`for x in [a, b] { BODY }` over an array literal -> unrolled blocks `{ let x = a; BODY } { let x = b; BODY }`",
     "R12": "`let v = RECV.and_then(|p| BODY);` -> `let v = match RECV { Some(p) => BODY, None => None };` (definition of Option::and_then; closures in argument position unsupported)",
     "R13": "`x.extend(y);` with a Vec-valued place `y` (field / local) -> `vec_extend_owned(&mut x, y);` (Extend is generic over IntoIterator; semantics of Vec::extend(Vec) trusted: appends in order)",
+    "R15": "`RECV.iter().all(|x| BODY)` -> `iter_all_r15(&RECV, |x| BODY)`, a loop over the Vec-modelled sequence verified in the unit itself against the closure's contract (iterator adapters unsupported)",
     "R14": "`a |= b;` on two bool places (b a field / local read) -> `a = a || b;` (Verus rejects `|` on bool)",
     "R10": "`a | b` on two bool places (field / local reads) -> `a || b` (Verus rejects `|` on bool)",
     "R8": "`impl Trait` / `impl Fn(..)` argument position and generic closures: `to_expr: impl Fn(&FieldEntry) -> TokenStream` kept; only if listed per function",
@@ -338,6 +339,10 @@ def rw_R13(t):
     return re.subn(r'(?m)^(\s*)(\w+(?:\.\w+)*)\.extend\((\w+(?:\.\w+)*)\);', r'\1vec_extend_owned(&mut \2, \3);', t)
 
 
+def rw_R15(t):
+    return re.subn(r'(\b[a-z_]\w*(?:\.[a-z_]\w*)*)\s*\.iter\(\)\s*\.all\(', r'iter_all_r15(&\1, ', t)
+
+
 def rw_R14(t):
     return re.subn(r'(?m)^(\s*)([a-z_]\w*) \|= ([a-z_]\w*(?:\.[a-z_]\w*)*);', r'\1\2 = \2 || \3;', t)
 
@@ -369,7 +374,7 @@ def rw_vis(t):
     return re.subn(r'\bpub\((?:super|crate)\)\s+', 'pub ', t)
 
 
-RW = {"R13": rw_R13, "R14": rw_R14, "R12": rw_R12, "R11": rw_R11, "R10": rw_R10, "R9": rw_R9, "R1": rw_R1, "R3": rw_R3, "R4": rw_R4, "R5": rw_R5, "R2u": rw_R2_uses}
+RW = {"R13": rw_R13, "R14": rw_R14, "R15": rw_R15, "R12": rw_R12, "R11": rw_R11, "R10": rw_R10, "R9": rw_R9, "R1": rw_R1, "R3": rw_R3, "R4": rw_R4, "R5": rw_R5, "R2u": rw_R2_uses}
 
 
 def _occ(text, anchor, n):
